@@ -32,7 +32,10 @@ type c13Plan struct {
 	SendAfter   bool   `json:"send_after,omitempty"`
 	// CauseCtx: after the cancellation scenario the channel is also called with a context that was cancelled with a
 	// cause (context.WithCancelCause): its Err() is still context.Canceled, and that is what the errors must wrap.
-	CauseCtx  bool `json:"cause_ctx,omitempty"`
+	CauseCtx bool `json:"cause_ctx,omitempty"`
+	// WithEED: the response starts with a server message (consumers that use NextPackageUntil collect it before
+	// the call is cancelled or the channel closed: the error must still wrap what ended the call).
+	WithEED   bool `json:"with_eed,omitempty"`
 	FlushFull bool `json:"flush_full,omitempty"` // the cancelled send is the flush of a message that exactly filled its packets
 	// close
 	Logout string `json:"logout,omitempty"` // answer | late | never | partial
@@ -105,6 +108,7 @@ func (c13) Gen(r *Rand, idx int, tier string) interface{} {
 	p.Consumer = Pick(r, []string{"next", "until", "until-nil", "until-err"})
 	p.SendAfter = r.Pct(50)
 	p.CauseCtx = p.Kind == "cancel" && r.Pct(30)
+	p.WithEED = (p.Consumer == "until-nil" || p.Consumer == "until-err") && (p.Kind == "cancel" || p.Kind == "close-recv") && r.Pct(50)
 	p.Logout = Pick(r, []string{"answer", "answer", "late", "never", "partial"})
 	p.LateMs = Pick(r, []int{10, 1000, 59000, 61000})
 	p.DoubleClose = r.Pct(40)
@@ -283,6 +287,9 @@ func (c13) Run(plan interface{}, schedSeed uint64, replay []simrt.Choice, lenien
 			return
 		}
 		var body []byte
+		if p.WithEED {
+			body = append(body, peer.EED(20001, 1, 16, "ZZZZZ", 0, 0, "a message of the server", "srv", "", 1)...)
+		}
 		for k := 0; k < p.NPkgs; k++ {
 			body = append(body, peer.Done(0x11, 0, int32(1000+k))...)
 		}
@@ -590,6 +597,14 @@ func c13Cancel(p *c13Plan, res *c13Res, conn *tds.Conn, ch *tds.Channel, cancelP
 			res.violate("send-after-cancel", "cancel: send with cancelled context succeeded", "SendPackage with a cancelled context returned nil")
 		} else if !errors.Is(err, context.Canceled) {
 			res.violate("wrong-error", "cancel: send error does not wrap the context error", "SendPackage with a cancelled context returned %q", err)
+		}
+	}
+	// polls after the cancellation: whatever they find (a package, the context's error, nothing), they return - also
+	// the second and third one
+	for i := 0; i < 3; i++ {
+		_, err := ch.NextPackage(own, false)
+		if err != nil && !errors.Is(err, tds.ErrNoPackageReady) && !errors.Is(err, context.Canceled) && !errors.Is(err, tds.ErrChannelClosed) && !strings.Contains(err.Error(), "error in TDS") {
+			res.violate("wrong-error", "cancel: poll after the cancellation", "poll #%d after the cancellation returned %q", i+1, err)
 		}
 	}
 	if p.CauseCtx && p.CancelWhat == "own" {
